@@ -324,6 +324,18 @@ func main() {
 			r.Violation("race", map[string]string{"frames": a.rep.Pair},
 				map[string]interface{}{"frames": a.rep.Pair, "stack_key": k, "occurrences": a.count, "first_seen": a.round, "report": a.rep.Text})
 		case "harness":
+			if strings.Contains(a.rep.Pair, "readReturnedConnection") && strings.Contains(a.rep.Pair, "gnet.") {
+				// the harness side is the plain read of a value the pool returned as a copy; the
+				// other side is the pool writing it: the returned value aliases pool state
+				if pairs[a.rep.Pair] {
+					continue
+				}
+				pairs[a.rep.Pair] = true
+				r.Count("race.distinct-frame-pairs", 1)
+				r.Violation("race", map[string]string{"frames": a.rep.Pair, "class": "returned-value-aliases-pool-state"},
+					map[string]interface{}{"frames": a.rep.Pair, "stack_key": k, "occurrences": a.count, "first_seen": a.round, "report": a.rep.Text})
+				continue
+			}
 			r.Inconclusive("race report involving harness code (harness bug): " + a.rep.Pair)
 			fmt.Fprintf(os.Stderr, "HARNESS RACE:\n%s\n", a.rep.Text)
 		default:
